@@ -173,16 +173,17 @@ func (r *run) checkC12(d *delivery, cl opClass, accepted bool, i int) {
 	}
 	S := pre.Players[s].StackSize + pre.Players[s].Wager
 	t := &r.tr
-	// the "size of the previous bet or raise" under every defensible
-	// reading: last full bet/raise, last increase of any kind, last increase
-	// made by a betting action
-	hi, lo := t.lastFull, t.lastFull
-	for _, x := range []int64{t.lastAny, t.lastAct} {
+	// "The size of the previous bet or raise of the round": a raise must be
+	// carried out exactly when it is sufficient under every reading (hi: the
+	// largest of last full bet/raise, last increase of any kind, last
+	// increase made by a betting action), and must not be carried out when it
+	// is undersized under the poker rule (lo: the last full bet/raise made by
+	// a betting action - an incomplete all-in or a call completed to the big
+	// blind does not lower or raise it).
+	hi, lo := t.lastFull, t.lastFullAct
+	for _, x := range []int64{t.lastAny, t.lastAct, t.lastFullAct} {
 		if x > hi {
 			hi = x
-		}
-		if x < lo {
-			lo = x
 		}
 	}
 	qp := post.Players[s]
